@@ -129,7 +129,7 @@ def _closure_body(txt, fn_name):
     import re
     m = re.search(r'async fn %s\b' % fn_name, txt)
     if not m: raise RuntimeError('cannot locate handler %s' % fn_name)
-    m2 = re.compile(r'spawn_blocking\(\s*move\s*\|\|\s*\{').search(txt, m.end())
+    m2 = re.compile(r'spawn_blocking\(\s*move\s*\|\|\s*(->[^{;]*)?\{').search(txt, m.end())
     nxt = re.compile(r'\nasync fn ').search(txt, m.end())
     if not m2 or (nxt and m2.start() > nxt.start()): raise RuntimeError('no spawn_blocking closure in handler %s' % fn_name)
     i = m2.end() - 1; depth = 0
@@ -137,7 +137,7 @@ def _closure_body(txt, fn_name):
         if txt[k] == '{': depth += 1
         elif txt[k] == '}':
             depth -= 1
-            if depth == 0: return txt[i:k + 1]
+            if depth == 0: return (m2.group(1) or '') + txt[i:k + 1]
     raise RuntimeError('unbalanced braces in handler %s' % fn_name)
 
 
